@@ -117,7 +117,7 @@ func (c RawConfiguration) CorrectableCall(ctx context.Context, d CorrectableCall
 		n.channel.enqueue(request{ctx: ctx, msg: &Message{Metadata: md, Message: msg}}, replyChan, d.ServerStream)
 	}
 
-	corr := &Correctable{donech: make(chan struct{}, 1)}
+	corr := &Correctable{level: LevelNotSet, donech: make(chan struct{}, 1)}
 
 	go c.handleCorrectableCall(ctx, corr, correctableCallState{
 		md:              md,
